@@ -39,6 +39,7 @@ static int read_varint(const uint8_t* data, size_t size, size_t* pos, uint32_t* 
 }
 
 static bool start_new_run(carquet_rle_decoder_t* dec) {
+again:  /* empty runs are skipped iteratively: input-controlled recursion could exhaust the stack */
     if (dec->pos >= dec->size) {
         return false;
     }
@@ -70,7 +71,7 @@ static bool start_new_run(carquet_rle_decoder_t* dec) {
 
         if (dec->run_remaining == 0) {
             /* Empty run (its value bytes are consumed), try next */
-            return start_new_run(dec);
+            goto again;
         }
 
     } else {
@@ -80,7 +81,7 @@ static bool start_new_run(carquet_rle_decoder_t* dec) {
         dec->run_remaining = (int64_t)num_groups * 8;
 
         if (dec->run_remaining == 0) {
-            return start_new_run(dec);
+            goto again;
         }
 
         /* We'll decode 8 values at a time into the buffer */
